@@ -11,7 +11,9 @@ package ident
 //     authentication rights and its address is in the signer set; operator-key methods — the
 //     operator is such a key of the identity (or, for addKey/removeKey, the old-style recovery
 //     address) and is witnessed; *ByController — the single controller's indexed key is such a key of
-//     the controller identity, or the listed signers that verify reach the group threshold;
+//     the controller identity, or the DISTINCT group members named by listed signers that verify
+//     reach the group threshold (repeated entries of one member count once); regIDWithController is
+//     held to the same predicate for the controller it names;
 //     *ByRecovery / updateRecovery — same with the recovery group; changeRecovery — the old recovery
 //     address is witnessed;
 //   * every mutating call on a revoked (or never registered) identity fails, and registering an
@@ -226,7 +228,7 @@ func runC45(t *testing.T, prof c45Profile, quick, thorough int) {
 		"by key index, *ByController with single and m-of-n / nested group controllers, *ByRecovery with group recovery, old-style recovery, " +
 		"auth-key set/remove, attributes, services, contexts, removeController, revokeID*); ~70% of calls authorised by construction from the " +
 		"model (right index, non-revoked authentication key, enough group signers), ~30% deliberately unauthorised (stranger, revoked key, " +
-		"key without authentication rights, wrong/foreign index, threshold-1 signers, missing witness, non-member signers). Non-trivial: a history " +
+		"key without authentication rights, wrong/foreign index, threshold-1 signers, threshold-1 distinct signers padded with duplicate entries, missing witness, non-member signers). Non-trivial: a history " +
 		"with successful calls under at least two authorisation kinds and at least one unauthorised attempt. Distinct: different action logs.")
 	ev.Assume("the sandbox call (SignedAddr = chosen signer set, commit on success, reset on error) is how a transaction reaches a native contract")
 	ev.Assume("network id 3: the new ONT ID methods are active from height 0; key indexes < 2^32 (the contract truncates index arguments to uint32)")
@@ -238,6 +240,11 @@ func runC45(t *testing.T, prof c45Profile, quick, thorough int) {
 	ev.Floor("attempt:revoked-key", "call", 0.005)
 	ev.Floor("attempt:nonauth-key", "call", 0.005)
 	ev.Floor("attempt:threshold-short", "call:group", 0.02)
+	ev.Floor("attempt:threshold-short-dup", "call:group", 0.02)
+	ev.Floor("attempt:threshold-short-dup:ctl", "", 0.05) // per history (each profile is its own process)
+	ev.Floor("attempt:threshold-short-dup:rec", "", 0.10)
+	ev.Floor("attempt:threshold-short-dup:reg", "", 0.02)
+	ev.Floor("attempt:threshold-short-dup:nested", "", 0.01)
 	ev.Floor("call:on-revoked-id", "call", 0.02)
 	ev.Floor("register:again", "call", 0.01)
 	ev.Floor("revoke:ok", "", 0.10)
@@ -527,25 +534,32 @@ func runC45(t *testing.T, prof c45Profile, quick, thorough int) {
 			return &c45Auth{op: p.pub, addrs: []common.Address{p.addr}, desc: "op=stranger:" + p.name}
 		}
 
-		// satisfy builds a minimal signer list satisfying group g (ok=false when impossible);
-		// short=true stops one member short of the top-level threshold.
-		var satisfy func(g *grp, short bool) ([]signer, []common.Address, bool)
-		satisfy = func(g *grp, short bool) ([]signer, []common.Address, bool) {
+		// satisfy builds a minimal signer list satisfying group g (ok=false when impossible); the
+		// (sub)group shortAt, if any, is deliberately left one DISTINCT member short of its threshold.
+		var satisfy func(g *grp, shortAt *grp) ([]signer, []common.Address, bool)
+		satisfy = func(g *grp, shortAt *grp) ([]signer, []common.Address, bool) {
 			need := int(g.threshold)
-			if short {
+			if g == shortAt {
 				need--
 			}
 			var ss []signer
 			var as []common.Address
 			got := 0
 			order := rapid.Permutation(seq(len(g.members))).Draw(rt, "memberOrder")
+			if shortAt != nil && g != shortAt { // visit the subgroup that is to stay short first, so that it is really used
+				for k, mi := range order {
+					if g.members[mi].sub == shortAt {
+						order[0], order[k] = order[k], order[0]
+					}
+				}
+			}
 			for _, mi := range order {
 				if got >= need {
 					break
 				}
 				mem := g.members[mi]
 				if mem.sub != nil {
-					s2, a2, ok := satisfy(mem.sub, false)
+					s2, a2, ok := satisfy(mem.sub, shortAt)
 					if ok {
 						ss, as, got = append(ss, s2...), append(as, a2...), got+1
 					}
@@ -562,24 +576,77 @@ func runC45(t *testing.T, prof c45Profile, quick, thorough int) {
 			}
 			return ss, as, got >= need
 		}
+		// subgroups lists g and all nested groups whose threshold is at least min.
+		var subgroups func(g *grp, min uint64) []*grp
+		subgroups = func(g *grp, min uint64) []*grp {
+			var out []*grp
+			if g.threshold >= min {
+				out = append(out, g)
+			}
+			for _, mem := range g.members {
+				if mem.sub != nil {
+					out = append(out, subgroups(mem.sub, min)...)
+				}
+			}
+			return out
+		}
 
-		genGroupSigners := func(i int, g *grp, valid bool) *c45Auth {
+		genGroupSigners := func(i int, g *grp, valid bool, where string) *c45Auth {
 			ev.Class("call:group")
 			if valid {
-				if ss, as, ok := satisfy(g, false); ok {
+				if ss, as, ok := satisfy(g, nil); ok {
 					return &c45Auth{signers: ss, addrs: as, desc: "signers" + signersStr(m, ss), intended: true}
 				}
 			}
-			switch uni(rt, "badGroup", 5) {
+			switch uni(rt, "badGroup", 8) {
+			case 5, 6, 7: // threshold-short padded with duplicates: one DISTINCT member short at some (sub)group,
+				// then listed entries of that group's own members are repeated (same id and key index, or the
+				// same id with another usable key of it) until the ENTRY count reaches the threshold again.
+				// Every listed signer verifies; only counting entries instead of distinct members lets it pass.
+				if cands := subgroups(g, 2); len(cands) > 0 {
+					tgt := pickFrom(rt, "dupTarget", cands)
+					if len(cands) > 1 && tgt == g && rapid.Bool().Draw(rt, "dupNested") { // nested groups are rarer: prefer them
+						tgt = pickFrom(rt, "dupSub", cands[1:])
+					}
+					if ss, as, ok := satisfy(g, tgt); ok {
+						var own []signer // listed entries that name a direct identity member of tgt
+						for _, e := range ss {
+							for _, mem := range tgt.members {
+								if mem.sub == nil && bytes.Equal(mem.id, e.id) {
+									own = append(own, e)
+								}
+							}
+						}
+						if len(own) > 0 {
+							for pad := 1 + uni(rt, "dupPad", 2); pad > 0; pad-- {
+								e := pickFrom(rt, "dupEntry", own)
+								j := m.idxOf(e.id)
+								if alt := m.authIdx(j); len(alt) > 1 && rapid.Bool().Draw(rt, "dupOtherKey") {
+									e.idx = pickFrom(rt, "dupIdx", alt)
+									as = append(as, addrOfKey(j, e.idx)...)
+								}
+								ss = append(ss, e)
+							}
+							if !m.groupOK(g, ss, addrSet(as)) {
+								ev.Class("attempt:threshold-short-dup")
+								ev.Class("attempt:threshold-short-dup:" + where)
+								if tgt != g {
+									ev.Class("attempt:threshold-short-dup:nested")
+								}
+							}
+							return &c45Auth{signers: ss, addrs: as, desc: "short+dup" + signersStr(m, ss)}
+						}
+					}
+				}
 			case 0: // one member short of the threshold, all listed signers verify
 				if g.threshold >= 1 {
-					if ss, as, ok := satisfy(g, true); ok {
+					if ss, as, ok := satisfy(g, g); ok {
 						ev.Class("attempt:threshold-short")
 						return &c45Auth{signers: ss, addrs: as, desc: "short" + signersStr(m, ss)}
 					}
 				}
 			case 1: // enough signers listed, one witness missing
-				if ss, as, ok := satisfy(g, false); ok && len(as) > 0 {
+				if ss, as, ok := satisfy(g, nil); ok && len(as) > 0 {
 					drop := uni(rt, "drop", len(as))
 					as = append(append([]common.Address{}, as[:drop]...), as[drop+1:]...)
 					return &c45Auth{signers: ss, addrs: as, desc: "missing-witness" + signersStr(m, ss)}
@@ -638,7 +705,7 @@ func runC45(t *testing.T, prof c45Profile, quick, thorough int) {
 				a.desc = fmt.Sprintf("ctl:id%d.%s", c, a.desc)
 				return a
 			case x.ctlGroup != nil:
-				a := genGroupSigners(i, x.ctlGroup, valid)
+				a := genGroupSigners(i, x.ctlGroup, valid, "ctl")
 				a.desc = "ctl:" + a.desc
 				return a
 			}
@@ -653,7 +720,7 @@ func runC45(t *testing.T, prof c45Profile, quick, thorough int) {
 		genRecovery := func(i int, valid bool) *c45Auth {
 			x := m.ids[i]
 			if x.recGroup != nil {
-				a := genGroupSigners(i, x.recGroup, valid)
+				a := genGroupSigners(i, x.recGroup, valid, "rec")
 				a.desc = "rec:" + a.desc
 				return a
 			}
@@ -701,18 +768,39 @@ func runC45(t *testing.T, prof c45Profile, quick, thorough int) {
 			}
 			perm := rapid.Permutation(cands).Draw(rt, "groupMembers")
 			k := 1 + uni(rt, "groupSize", len(perm))
+			if k == 1 && len(perm) > 1 && rapid.Bool().Draw(rt, "groupBigger") { // m-of-n with m >= 2 needs n >= 2
+				k = 2
+			}
 			if k > 3 {
 				k = 3
+			}
+			nested := len(perm) >= 2 && pct(rt, "nested") < 40
+			if nested { // leave one or two identities for the subgroup
+				if rest := len(perm) - 2; rest >= 1 && k > rest && rapid.Bool().Draw(rt, "nestedPair") {
+					k = rest
+				} else if k > len(perm)-1 {
+					k = len(perm) - 1
+				}
 			}
 			g := &grp{}
 			for _, j := range perm[:k] {
 				g.members = append(g.members, gmember{id: m.ids[j].id})
 			}
-			if len(perm) > k && pct(rt, "nested") < 25 { // one nested subgroup over a remaining identity
-				sub := &grp{members: []gmember{{id: m.ids[perm[k]].id}}, threshold: 1}
+			if nested && len(perm) > k { // one nested subgroup over a remaining identity
+				sub := &grp{members: []gmember{{id: m.ids[perm[k]].id}}}
+				if len(perm) > k+1 {
+					sub.members = append(sub.members, gmember{id: m.ids[perm[k+1]].id})
+				}
+				sub.threshold = uint64(len(sub.members)) // n-of-n, sometimes 1-of-n
+				if pct(rt, "subAny") < 30 {
+					sub.threshold = 1
+				}
 				g.members = append(g.members, gmember{sub: sub})
 			}
 			g.threshold = 1 + uint64(uni(rt, "threshold", len(g.members)))
+			if g.threshold == 1 && len(g.members) > 1 && rapid.Bool().Draw(rt, "thresholdAtLeast2") {
+				g.threshold = 2
+			}
 			if !valid && pct(rt, "oddThreshold") < 30 {
 				g.threshold = pickFrom(rt, "thr", []uint64{0, uint64(len(g.members) + 1)})
 			}
@@ -779,8 +867,9 @@ func runC45(t *testing.T, prof c45Profile, quick, thorough int) {
 			var err error
 			var apply func()
 			desc := ""
+			ctlPred := true // regIDWithController: adding the controller needs the controller's own authorisation
 			// a registrant that would be accepted for a fresh identity
-			switch w := uni(rt, "regKind", 14); {
+			switch w := uni(rt, "regKind", 15); {
 			case w < 9:
 				k := newKeyFor(i)
 				if len(x.former) > 0 && rapid.Bool().Draw(rt, "regFormerKey") {
@@ -816,13 +905,15 @@ func runC45(t *testing.T, prof c45Profile, quick, thorough int) {
 					c = pickFrom(rt, "controller", cands)
 				}
 				a := genIndex(c, pct(rt, "regCtlValid") < 80)
+				ctlPred = m.keyUsable(c, a.idx, addrSet(a.addrs))
 				_, err = n.Call(ontidAddr, "regIDWithController", aRegIDWithController(x.id, m.ids[c].id, proofIndex(a.idx)), a.addrs)
 				desc = fmt.Sprintf("regIDWithController(id%d,%s)", c, a.desc)
 				apply = func() { x.ctlSingle = m.ids[c].id }
 			default: // group controller
-				valid := pct(rt, "regGrpValid") < 80
+				valid := pct(rt, "regGrpValid") < 65
 				g := genGroup(i, valid)
-				a := genGroupSigners(i, g, valid)
+				a := genGroupSigners(i, g, valid, "reg")
+				ctlPred = m.groupOK(g, a.signers, addrSet(a.addrs))
 				_, err = n.Call(ontidAddr, "regIDWithController", aRegIDWithController(x.id, g.bytes(), proofSigners(a.signers)), a.addrs)
 				desc = fmt.Sprintf("regIDWithController(%s,%s)", g, a.desc)
 				apply = func() { x.ctlGroup = g }
@@ -838,6 +929,9 @@ func runC45(t *testing.T, prof c45Profile, quick, thorough int) {
 			ev.Class("register:ok")
 			if x.state != stNone {
 				fail("%s succeeded although id%d is %s", desc, i, stName(x.state))
+			}
+			if !ctlPred {
+				fail("%s for id%d succeeded although the named controller did not authorise it (its indexed key is not a witnessed, non-revoked authentication key / the DISTINCT group members that verify do not reach the threshold)", desc, i)
 			}
 			x.state = stValid
 			apply()
